@@ -238,6 +238,34 @@ def emitted_fields(project, chk, R3="O3", R4="O4"):
     # hsl()
     fi = project.func(f"{CONV}.rgb_to_hsl")
     chk.saw_function(fi)
+    # a field printed in a format that has no guaranteed decimal point and then stripped of trailing '0's loses significant digits
+    import ast as _ast
+    from sa.effects import Effects as _Eff
+    _eff = _Eff(project)
+    nstrip = 0
+    for q in sorted(_eff.reach(fi.qualname) | {fi.qualname}):
+        f2 = project.funcs.get(q)
+        if f2 is None:
+            continue
+        for c in _ast.walk(f2.node):
+            if not (isinstance(c, _ast.Call) and isinstance(c.func, _ast.Attribute) and c.func.attr in ("rstrip", "strip") and len(c.args) == 1
+                    and isinstance(c.args[0], _ast.Constant) and isinstance(c.args[0].value, str) and "0" in c.args[0].value):
+                continue
+            base = c.func.value
+            while isinstance(base, _ast.Call) and isinstance(base.func, _ast.Attribute) and base.func.attr in ("rstrip", "strip", "lstrip"):
+                base = base.func.value
+            spec = None
+            if isinstance(base, _ast.JoinedStr) and len(base.values) == 1 and isinstance(base.values[0], _ast.FormattedValue):
+                fs = base.values[0].format_spec
+                spec = "".join(v.value for v in fs.values if isinstance(v, _ast.Constant)) if fs is not None and all(isinstance(v, _ast.Constant) for v in fs.values) else None
+            elif isinstance(base, _ast.Call) and isinstance(base.func, _ast.Name) and base.func.id == "format" and len(base.args) == 2 and isinstance(base.args[1], _ast.Constant):
+                spec = str(base.args[1].value)
+            if spec is None:
+                continue
+            nstrip += 1
+            pointless = spec[-1:] in ("g", "G", "e", "E", "d", "n") and "#" not in spec
+            chk.check(not pointless, R3, f2.short, norm_text(c), project.loc(f2.module, c), "a number stripped of trailing zeros was printed in a fixed-point format (always has a decimal point)",
+                      how=f"format spec {spec!r}", message=f"a field printed with format spec {spec!r} (no decimal point for integral values, or an exponent) is stripped of trailing '0's: 120 is emitted as 12, so the hsl() text denotes another colour than the one judged")
     try:
         ex, env, ret = extract_function(project, fi)
     except Unsupported as e:
